@@ -206,6 +206,21 @@ pub fn entry_point(s: &GenStream, ep: &str, acc: Option<&mut Acc>) -> Result<(),
                     }
                 }
             }
+            // two-step histories: a dynamic-block stream, then a stream rejected at its block header
+            // (each out-of-range HLIT / HDIST field combination), then init() / reset
+            for k in 0..DEEP_HISTORIES.len() {
+                let what = format!("after a dynamic stream and a stream rejected with HLIT/HDIST fields {:?}", DEEP_HISTORIES[k]);
+                let r = run_cuts_with(data, Mode::Flat, n + 8, zf, &[], false, 0x5c, |d| apply_deep_history(d, k));
+                expect(r.status, &r.out, r.consumed, &format!("flat, decoder reused {}", what))?;
+                let fmt = if s.zlib { DataFormat::Zlib } else { DataFormat::Raw };
+                for min in [false, true] {
+                    let mut st = deep_history_state(k, fmt, min);
+                    let r = inflate_loop_from(&mut st, data, 0, 4096, n + 64, MZFlush::None, Vec::new());
+                    if r.code != 1 || r.out != s.plain || r.consumed != data.len() {
+                        return Err(format!("inflate() on a state reused {} ({}): code {} out {}/{} consumed {}/{}", what, if min { "MinReset" } else { "reset" }, r.code, r.out.len(), n, r.consumed, data.len()));
+                    }
+                }
+            }
             Ok(())
         }
         "E6-bytewise" => {
